@@ -598,6 +598,18 @@ func cmdC05Free(args []string) {
 		fatal("usage: c05-free <programs.ndjson> <goroutines> <maxPrograms>")
 	}
 	progs := append(extraPrograms(), loadPrograms(args[0])...)
+	// constructs whose output is random by design: what they return is not compared, but they run under the race detector
+	// and must neither panic nor fail
+	nondet := map[string]bool{}
+	for name, src := range map[string]string{
+		"nondet:lorem":  "{% lorem 3 w random %}|{% lorem 2 p random %}|{% lorem 1 b random %}{% for i in l3 %}{% lorem 2 w random %}{% endfor %}",
+		"nondet:random": "{% for i in l3 %}{{ l3|random }}{{ \"abc\"|random }}{% endfor %}",
+	} {
+		c := routeContext()
+		c["l3"] = []interface{}{1, 2, 2}
+		progs = append([]progCase{{Name: name, Src: src, Ctx: map[string]pongo2.Context{"c1": c}}}, progs...)
+		nondet[name] = true
+	}
 	k, _ := strconv.Atoi(args[1])
 	maxp, _ := strconv.Atoi(args[2])
 	seed, _ := strconv.Atoi(os.Getenv("VERIF_SEED"))
@@ -605,7 +617,7 @@ func cmdC05Free(args []string) {
 		// keep all registry-driven programs, sample the rest
 		var keep []progCase
 		for i, p := range progs {
-			if strings.HasPrefix(p.Name, "tag:") || strings.HasPrefix(p.Name, "filter:") || p.Name == "extends" || p.Name == "trim" || (i*7919+seed)%(len(progs)/maxp+1) == 0 {
+			if strings.HasPrefix(p.Name, "tag:") || strings.HasPrefix(p.Name, "filter:") || strings.HasPrefix(p.Name, "nondet:") || p.Name == "extends" || p.Name == "trim" || (i*7919+seed)%(len(progs)/maxp+1) == 0 {
 				keep = append(keep, p)
 			}
 		}
@@ -650,7 +662,7 @@ func cmdC05Free(args []string) {
 						}
 					}
 					want := solo[ci]
-					if got.Panic != "" || (got.Err == "") != (want.Err == "") || (got.Err == "" && got.Out != want.Out) {
+					if got.Panic != "" || (got.Err == "") != (want.Err == "") || (got.Err == "" && got.Out != want.Out && !nondet[p.Name]) {
 						mu.Lock()
 						rep.viol(fmt.Sprintf("concurrent execution: program %s %q with %d goroutines: one execution returned %q / %q, alone it returns %q / %q",
 							p.Name, p.Src, k, got.Out, firstLine(got.Err+got.Panic), want.Out, firstLine(want.Err)), map[string]interface{}{"cmd": "c05-free", "program": p.Src})
